@@ -1096,8 +1096,9 @@ pub fn c14_run(ctx: &Ctx) -> Summary {
     c.tags.push("second-process".into());
     match o {
         Ok(o) => {
-            let text = String::from_utf8_lossy(&o.stdout).to_string();
-            let mine: String = reference.iter().map(|r| format!("{} {} {} {}\n", r.0, r.1, r.2, r.3)).collect();
+            // the library prints diagnostics on stdout; result lines carry the prefix "R "
+            let text: String = String::from_utf8_lossy(&o.stdout).lines().filter(|l| l.starts_with("R ")).map(|l| format!("{l}\n")).collect();
+            let mine: String = reference.iter().map(|r| format!("R {} {} {} {}\n", r.0, r.1, r.2, r.3)).collect();
             if text != mine {
                 c.failures.push(Failure { kind: "oracle".into(), signature: "process-result-differs".into(), detail: "a second process computed different results for the same inputs".into(), replay: "c14-child".into() });
             }
@@ -1139,7 +1140,7 @@ pub fn c14_child(ctx: &Ctx) {
             streams::Outcome::Err(_) => (1, 0),
             streams::Outcome::Panic(_) => (2, 0),
         };
-        println!("{} {} {} {}", a.0, a.1, b.0, b.1);
+        println!("R {} {} {} {}", a.0, a.1, b.0, b.1);
     }
 }
 
